@@ -31,6 +31,16 @@ func initKF() {
 	if kf.Activate("KF-C01-freeze-metadata", syntaxErr) {
 		genOff["freeze-metadata"] = true
 	}
+	changed := func(in string) bool {
+		o := orc.ParsePrintPreserves(in, orc.Opts{OwnGenerator: true})
+		return o.V == orc.Violation && o.Class == "meaning_changed"
+	}
+	if kf.Activate("KF-C01-di-default-true-bools", changed) {
+		genOff["di-default-true-bools"] = true
+	}
+	if kf.Activate("KF-C01-dwarfAddressSpace-zero", changed) {
+		genOff["di-dwarfAddressSpace-zero"] = true
+	}
 }
 
 var reFloatLit = regexp.MustCompile(`\b0x([HKLM]?)([0-9A-Fa-f]+)\b`)
